@@ -2,10 +2,12 @@
 // against the Lean model, and single-field corruptions of valid proofs fed to the real verifiers.
 //
 // Ops: new | update k=v … | commit | reopen i            build tries (as in c10)
-//      prove k | provec k                                 the proof the node produces (at the current root)
-//      vinc root key value ap                             VerifyInclusion verdict
-//      vexc root key value proofKey ap                    VerifyNonInclusion verdict
-//      vincc root bitmap key value len ap | vexcc root bitmap key value proofKey len ap   compressed forms
+//
+//	prove k | provec k                                 the proof the node produces (at the current root)
+//	vinc root key value ap                             VerifyInclusion verdict
+//	vexc root key value proofKey ap                    VerifyNonInclusion verdict
+//	vincc root bitmap key value len ap | vexcc root bitmap key value proofKey len ap   compressed forms
+//
 // Oracle (the property): a produced proof verifies against its root (completeness); whatever the
 // real verifier accepts is true of the map at that root (soundness): no inclusion of a different
 // value / absent key, no absence of a present key.
@@ -246,10 +248,16 @@ func (s *sess) vt(root []byte) *trie.Trie {
 	return t
 }
 
+// The property talks about what a verifier ACCEPTS: a panic of the Go verifier on a malformed proof (index out of
+// range for a too long path / too short bitmap) is a rejection, like false. (Counted, so that the distribution shows
+// them; a verifier hardened with bounds checks that return false gives the same trace.)
+var verifierPanics int
+
 func boolOrPanic(f func() bool) string {
 	out, _ := vh.Guard(func() string { return fmt.Sprint(f()) })
 	if strings.HasPrefix(out, "panic") {
-		return "panic"
+		verifierPanics++
+		return "false"
 	}
 	return out
 }
@@ -383,7 +391,33 @@ func (s *sess) proveAndVerify(k []byte, ri int) {
 			s.vincc(root, bitmap, k, pvc, length-1, apc, m, "length-1")
 			s.vincc(root, bitmap, k, pvc, length+1, apc, m, "length+1")
 			s.vincc(root, bitmap, k, flipBytes(rng, pvc), length, apc, m, "value-changed")
+			// malformed audit-path elements (the Go verifier checks no length; WfSib of the soundness theorems)
+			ap3 := append([][]byte{}, ap...)
+			ap3[i] = append(append([]byte{}, ap[i]...), byte(rng.Intn(256)))
+			s.vinc(root, k, pv, ap3, m, "ap-element-one-byte-longer")
+			ap4 := append([][]byte{}, ap...)
+			ap4[i] = append([]byte{}, ap[i][:len(ap[i])-1]...)
+			s.vinc(root, k, pv, ap4, m, "ap-element-one-byte-shorter")
+			// compressed: the verifier indexes the stored siblings from the END and reads only `length` bits of the
+			// bitmap: junk in front of the siblings / behind the bitmap is not looked at (harmless: the claim is true)
+			s.vincc(root, bitmap, k, pvc, length, append([][]byte{rng.Bytes(32)}, apc...), m, "apc-junk-in-front")
+			s.vincc(root, append(append([]byte{}, bitmap...), byte(rng.Intn(256))), k, pvc, length, apc, m, "bitmap-extra-byte")
+			if len(apc) > 0 {
+				j := rng.Intn(len(apc))
+				apc2 := append([][]byte{}, apc...)
+				apc2[j] = append(append([]byte{}, apc[j]...), byte(rng.Intn(256)))
+				s.vincc(root, bitmap, k, pvc, length, apc2, m, "apc-element-one-byte-longer")
+			}
 		}
+		// LENGTH PRECONDITIONS (Props.C11.split_ambiguity / short_key_same_verdict): the hasher concatenates key,
+		// value and height byte and the verifiers check no length, so moving the key/value boundary gives the same
+		// verdict as long as the path is not longer than the shortened key. Not judged by the oracle (m = nil): it is
+		// the documented precondition "keys and values are 32 bytes" of the soundness clause; the model must agree.
+		if len(ap) <= 248 {
+			s.vinc(root, k[:31], append(append([]byte{}, k[31:]...), pv...), ap, nil, "precondition-31-byte-key-33-byte-value")
+			s.vincc(root, bitmap, k[:31], append(append([]byte{}, k[31:]...), pvc...), length, apc, nil, "precondition-31-byte-key-33-byte-value")
+		}
+		s.vinc(root, append(append([]byte{}, k...), pv[0]), pv[1:], ap, nil, "precondition-33-byte-key-31-byte-value")
 		s.vinc(flipBytes(rng, root), k, pv, ap, nil, "root-changed")
 		for j := range s.roots {
 			if j != ri && !bytes.Equal(s.roots[j].root, root) && rng.Chance(1, 3) {
@@ -433,33 +467,37 @@ func bitOf(k []byte, i int) bool { return k[i/8]&(1<<uint(7-i%8)) != 0 }
 // forgeByDefaultLeafAmbiguity: an empty child is hashed as the single byte 00 with no domain separation, so a
 // node (empty, h) with h ending in 00 (or (h, empty) with h starting with 00) can be re-read with the empty
 // side swapped. For a PRESENT key whose path passes such a node this yields an accepted non-inclusion proof.
-// Returns whether a forgery was attempted.
-func (s *sess) forgeByDefaultLeafAmbiguity(k []byte, ri int) bool {
+// Returns which forgeries were attempted: bit 0 = (empty, h) re-read as (h', empty), bit 1 = the other side.
+func (s *sess) forgeByDefaultLeafAmbiguity(k []byte, ri int) int {
 	root := s.roots[ri].root
 	m := s.roots[ri].m
 	v, present := m[string(k)]
 	if !present {
-		return false
+		return 0
 	}
 	ap, inc, _, _, err := s.tr.MerkleProofR(k, root)
 	if err != nil || !inc {
-		return false
+		return 0
 	}
 	n := len(ap)
 	cur := common.Hasher(k, v, []byte{byte(256 - n)})
-	tried := false
+	tried := 0
 	for i := 0; i < n; i++ {
 		depth := n - 1 - i
 		sib := ap[i]
 		if bytes.Equal(sib, trie.DefaultLeaf) {
 			var forged []byte
+			side := 0
 			if bitOf(k, depth) && cur[31] == 0 {
 				forged = append([]byte{0}, cur[:31]...)
+				side = 1
 			} else if !bitOf(k, depth) && cur[0] == 0 {
 				forged = append(append([]byte{}, cur[1:]...), 0)
+				side = 2
 			}
 			if forged != nil {
-				tried = true
+				tried |= side
+				s.run.Count(fmt.Sprintf("default-leaf-ambiguity forgery attempted, side %d", side))
 				ap2 := append([][]byte{forged}, ap[i+1:]...)
 				out := boolOrPanic(func() bool { return s.vt(root).VerifyNonInclusion(ap2, k, nil, nil) })
 				s.op(fmt.Sprintf("vexc %s %s %s %s %s", hx(root), hx(k), hx(nil), hx(nil), hxl(ap2)), out, out == "true")
@@ -524,9 +562,11 @@ func genUniverse(r *vh.Rng, n int) [][]byte {
 func val(r *vh.Rng) []byte { return r.Bytes(32) }
 
 func main() {
-	run := vh.Start("c11", "tries built by random batch sessions over prefix-colliding 32-byte keys (as c10), incl. the empty trie and historical roots; for every key of the "+
+	run := vh.Start("c11", "tries built by random batch sessions over prefix-colliding 32-byte keys (as c10), incl. the empty trie and historical roots (instance reopened at the root, or LIVE at the latest root and asked with the R variants); for every key of the "+
 		"universe (present / absent with empty subtree / absent with foreign leaf): the node's plain and compressed proof, then every single-field corruption (value, key, other key, "+
-		"audit-path element changed/dropped/added, bitmap bit, length, root, other root, proofKey) fed to the real verifiers. non-trivial = accepted verdict or produced proof; distinct by (op, answer)")
+		"audit-path element changed/dropped/added/one byte longer or shorter, bitmap bit, length, root, other root, proofKey, junk in front of the compressed siblings, longer bitmap) and the key/value boundary moved (31/33, 33/31 bytes) fed to the real verifiers; "+
+		"a chain state DB filled block by block with contracts (with storage, without, wiped): StateDB.GetAccountAndProof / GetVarAndProof on the live instance and ChainWorker.Receive(GetStateQuery / GetStateAndProof) incl. a protobuf round trip, judged wallet-style against the requested root / the contract's storage root, and replayed on the model (account trie and every storage trie). "+
+		"non-trivial = accepted verdict or produced proof; distinct by (op, answer)")
 	defer run.Finish()
 	rng := run.Rng
 	for n := 0; n < run.Pick(60, 1200); n++ {
@@ -565,8 +605,24 @@ func main() {
 		ri := len(s.roots) - 1
 		if len(s.roots) > 1 && rng.Chance(1, 3) {
 			ri = rng.Intn(len(s.roots))
-			s.reopen(ri)
-			run.Count("historical-root")
+			if rng.Bool() {
+				s.reopen(ri)
+				run.Count("historical-root")
+			} else {
+				// the R variants on a LIVE instance: the Go trie stays at the latest root (with everything later
+				// blocks inserted, changed and deleted in its cache) and is asked about root #ri; only the model
+				// is repositioned
+				s.op(fmt.Sprintf("reopen %d", ri), rootStr(s.roots[ri].root), false)
+				run.Count("historical-root-on-live-instance")
+				cur, old := s.roots[len(s.roots)-1].m, s.roots[ri].m
+				for _, k := range univ {
+					_, a := cur[string(k)]
+					_, b := old[string(k)]
+					if a != b {
+						run.Count(fmt.Sprintf("live-instance key present-at-requested-root=%v present-at-current-root=%v", b, a))
+					}
+				}
+			}
 		}
 		for _, k := range univ {
 			s.proveAndVerify(k, ri)
@@ -577,18 +633,27 @@ func main() {
 	for n := 0; n < run.Pick(12, 200); n++ {
 		accountProofs(run)
 	}
+	// contract variables and the chain worker's proof messages
+	for n := 0; n < run.Pick(6, 80); n++ {
+		contractProofs(run)
+	}
+	defectScenarios(run)
 	// deliberate probe of the DefaultLeaf ambiguity: two keys sharing a 250-bit prefix give a chain of ~250 interior
 	// nodes with an empty sibling each; about one digest in 256 ends (or starts) with 00
-	probes := 0
-	for n := 0; n < run.Pick(40, 400) && probes < run.Pick(3, 20); n++ {
+	// (each side of the ambiguity must be probed: a repair of one side only must not pass)
+	var probes [3]int
+	for n := 0; n < run.Pick(200, 1500) && (probes[1] < run.Pick(2, 10) || probes[2] < run.Pick(2, 10)); n++ {
 		k1 := rng.Bytes(32)
 		k2 := append([]byte{}, k1...)
 		k2[31] ^= 0x20
 		s := newSess(run, [][]byte{k1, k2})
 		s.update([]kv{{k1, val(rng)}, {k2, val(rng)}})
-		if s.forgeByDefaultLeafAmbiguity(k1, 0) {
-			probes++
-		}
+		t := s.forgeByDefaultLeafAmbiguity(k1, 0)
+		probes[1] += t & 1
+		probes[2] += t >> 1
 		run.Count("default-leaf-ambiguity-probe-tries")
+	}
+	for i := 0; i < verifierPanics; i++ {
+		run.Count("verifier panicked on a malformed proof (= rejected)")
 	}
 }
